@@ -26,6 +26,8 @@ pub fn wl(name: &str, chans: Vec<ChanSpec>, msgs: Vec<Msg>) -> Workload {
         record_wire: false,
         early_send: false,
         early_inband: false,
+        closes: vec![],
+        fault_ssn_window: None,
     }
 }
 
@@ -176,6 +178,14 @@ pub fn c12_workloads(thorough: bool) -> Vec<(Workload, usize)> {
             v.push((w, 1));
         }
     }
+    // channels closed by the application (stream reset) while traffic continues on another channel
+    {
+        let cs = vec![chan(0, true, None, None, true), chan(1, false, None, None, true), chan(2, true, None, None, false)];
+        let msgs = vec![m(A, 0, 0, 0, 20), m(B, 0, 0, 10, 21), m(A, 1, 0, 0, 1300), m(B, 1, 0, 50, 9), m(A, 2, 0, 20, 33), m(A, 1, 0, 300, 10), m(B, 1, 0, 320, 11)];
+        let mut w = wl("K-close-channels", cs, msgs);
+        w.closes = vec![(A, 0, 150), (B, 2, 200), (A, 1, 500), (B, 1, 500)];
+        v.push((w, 1));
+    }
     // early send before Open, ordered reliable + unordered
     {
         let cs = vec![chan(0, true, None, None, true), chan(1, false, None, None, true)];
@@ -187,6 +197,18 @@ pub fn c12_workloads(thorough: bool) -> Vec<(Workload, usize)> {
         for (w, b) in v.iter_mut() {
             *b = 2;
             let _ = w;
+        }
+        // SSN wraparound: 65 560 eight-byte messages on one ordered channel, single faults aimed at
+        // the datagrams whose DATA chunks carry SSN 65533..=2
+        {
+            let cs = vec![chan(0, true, None, None, true)];
+            let msgs: Vec<Msg> = (0..65_560u64).map(|i| m(A, 0, 0, i / 64, 8)).collect();
+            let mut w = wl("S-ssn-wrap-65560", cs, msgs);
+            w.fault_ssn_window = Some((65533, 2));
+            w.faults = vec![Fault::Drop, Fault::DupNow, Fault::Delay(3), Fault::DropBurst(3)];
+            w.horizon_ms = 20_000;
+            w.linger_ms = 1_000;
+            v.push((w, 1));
         }
         // a large message (70 000 bytes) on ordered and unordered channels
         let cs = vec![chan(0, true, None, None, true), chan(1, false, None, None, true)];
@@ -210,14 +232,18 @@ pub fn c12_oracle(w: &Workload, obs: &Obs) -> Vec<Verdict> {
             let mut pool: Vec<Vec<u8>> = per_task.iter().flat_map(|(_, v)| v.iter().cloned()).collect();
             // 1. every delivered message equals exactly one submitted message (multiset inclusion)
             let mut bad = None;
+            let mut pool_dq: std::collections::VecDeque<Vec<u8>> = pool.drain(..).collect();
             for g in &got {
-                if let Some(i) = pool.iter().position(|s| s == g) {
-                    pool.remove(i);
+                if pool_dq.front() == Some(g) {
+                    pool_dq.pop_front();
+                } else if let Some(i) = pool_dq.iter().position(|s| s == g) {
+                    pool_dq.remove(i);
                 } else {
                     bad = Some(g.len());
                     break;
                 }
             }
+            pool = pool_dq.into_iter().collect();
             if let Some(l) = bad {
                 out.push(Verdict {
                     kind: format!("not_a_submitted_message({})", chan_kind(c)),
